@@ -11,7 +11,7 @@ CHECKS = {
     "C03": dict(
         technique="differential execution monitor: generated JS run on the real runtime, delivered values vs reference interpreter over the abstract expression",
         text="Runtime monitoring of executions: every generated expression is compiled by the SUT, the generated code is executed on the type-stripped real runtime, and the value that crosses the protocol boundary (R.r) is compared with an interpreter that applies the JS engine's operators to the abstract tree. Exhaustive over all operator pairs at depth 2 (minimal and redundant parentheses) and over a literal grammar, random trees to depth 6/7 beyond that. Says: held on the executions observed, not for all expressions.",
-        note="Trusted: the reference interpreter (m/c semantics from the property text), the JS engine, the loader that type-strips glass-easel/src (gated by golden scenarios). (expr, env) pairs on which the reference throws are skipped and counted.",
+        note="Trusted: the reference interpreter (m/c semantics from the property text), the JS engine, the loader that type-strips glass-easel/src. (expr, env) pairs on which the reference throws are skipped and counted.",
         ref="2/C03",
     ),
 }
@@ -38,7 +38,7 @@ CHECKS["C07"] = dict(
 )
 
 CHECKS["C05"] = dict(
-    technique="reference-model monitor with sentinels: every candidate referent carries a distinct value; delivered values vs the reference environment chain",
+    technique="reference-model monitor with sentinels: every candidate referent carries a distinct value; delivered values vs the reference environment chain; thorough: scope conversion (unsafe SubExpressionMut) interpreted by Miri",
     text="Templates nest wx:for scopes (default and renamed item/index drawn from a 6-name pool so that shadowing is the norm), slot-value scopes on children of a dynamic-slots component, script modules and <template name> bodies; probe bindings place one identifier at every child position of every expression form. Data fields, modules, slot values and loop items carry distinct sentinels, so the delivered value names the scope that was read; it is compared with the reference environment chain. Held on the templates observed.",
     note="Trusted: the reference environment chain (ref.mjs), the loader, the child component compiled by the same compiler.",
     ref="2/C05",
@@ -81,7 +81,7 @@ CHECKS["C13"] = dict(
 )
 
 CHECKS["C16"] = dict(
-    technique="invariant monitor over every location stored in the public AST (walked by the Rust driver) and over the printer's source map",
+    technique="invariant monitor over every location stored in the public AST (walked by the Rust driver) and over the printer's source map; child-iterator exactly-once monitor on the same walk (thorough: under Miri)",
     text="Generated templates are re-spelt with LF / CRLF line breaks, multi-byte and astral characters before every node; the driver walks the public AST and emits every stored location; for each, the source slice must equal the spelling / decode to the value / parse to the number, children must nest in parents (including the computed locations of compound expressions) and siblings must be ordered. Every entry of the Stringifier source map must have non-decreasing output positions, point at its token in the printed text, carry the source spelling as name and start at a recorded construct start.",
     note="Trusted: the monitor's entity / string-literal decoders; the AST walker (wildcard arms count what it cannot classify). Only templates parsed without Error-level diagnostics are judged.",
     ref="2/C16",
@@ -137,7 +137,7 @@ CHECKS["C19"] = dict(
 )
 
 CHECKS["C01"] = dict(
-    technique="totality monitor: every phase under catch_unwind in an isolated worker with the event-tap monitors armed (logical step fuel, stall detection, position sync) and a counting allocator; process aborts attributed through a BEGIN/result protocol",
+    technique="totality monitor: every phase under catch_unwind in an isolated worker with the event-tap monitors armed (logical step fuel, stall detection, position sync) and a counting allocator, in both build profiles; size and nesting-depth growth ladders; process aborts attributed through a BEGIN/result protocol; thorough: the same driver interpreted by Miri",
     text="Inputs: every WXML/CSS literal of the repository's own tests, generated valid programs, systematic neighbourhoods of short seeds (every prefix, every single-character deletion, substitutions from an alphabet of hostile characters), an exhaustive numeric-literal grammar, dictionary mutants, every stylesheet option set (incl. ratio 0, negative, NaN, infinite), hostile template paths, and size ladders of adversarial families up to 16-64 KiB; each input runs add_tmpl, every emit API, both printers and the stylesheet transformer in both build profiles (debug assertions + overflow checks, and release). Verdict: returned normally, logical steps <= 2(n+64)^2, peak heap <= 30000(n+64)(d+2)+4 MiB, diagnostics <= 4(n+1), fitted growth exponents on ladders <= 2.3; a parser that ticks 100,000 times without advancing its cursor is a stall.",
     note="Trusted: the tap placement (every cursor primitive of the parser), the counting allocator, the depth filter (over-approximates; out-of-domain inputs are counted, not judged). CPU-limit / watchdog hits are re-run alone and otherwise inconclusive, never violations by themselves.",
     ref="2/C01", engine="gev",
